@@ -237,6 +237,13 @@ def reply_sequences(ctx):
             script.append((rep, False)); ops.append(("noop",))
         script.append((b"221 bye\r\n", False)); ops.append(("quit",))
         scs.append({"hello": b"seq.test", "script": script, "ops": ops, "timeout_ms": 1500})
+    # every malformed / unusual reply once as the only answer to a command, the peer then silent until the next command: the verdict on it
+    # is given when its last octet is there (an error at once, or the reply), never by waiting for more
+    for rep in G.MALFORMED:
+        scs.append({"hello": b"seq.test", "script": [(b"220 hi\r\n", False), (b"250 srv\r\n", False), (rep, False), (b"250 next\r\n", False), (b"221 bye\r\n", False)],
+                    "ops": [("noop",), ("noop",), ("quit",)], "timeout_ms": 800})
+        scs.append({"hello": b"seq.test", "script": [(rep, False), (b"250 srv\r\n", False), (b"250 next\r\n", False), (b"221 bye\r\n", False)],
+                    "ops": [("noop",), ("quit",)], "timeout_ms": 800})
     bad, parsed, ml = run_differential(ctx, scs)
     ctx.cov["correspondence"]["command_sequences_on_one_connection"] = {"dialogues": len(scs) * 2, "disagreements": len(bad)}
     return scs, bad
